@@ -212,7 +212,7 @@ def main(tier):
 
     t0 = time.time()
     master = rng.master_seed()
-    n_chunks = 160 if tier == "quick" else 640
+    n_chunks = 120 if tier == "quick" else 640
     mx = os.environ.get("VERIF_MAX_RUNS")
     if mx:
         n_chunks = min(n_chunks, int(mx))
@@ -229,6 +229,10 @@ def main(tier):
         for k, v in r["stats"].items():
             ref_stats[k] = ref_stats.get(k, 0) + v
         ref_sigs.update(r["sigs"])
+    ok_refs = sum(v for k, v in ref_stats.items() if k in ("ref_val", "ref_code", "ref_map", "ref_py"))
+    if ok_refs < 0.3 * ref_stats.get("ref_calls", 1):
+        print(f"[{ID}] HARNESS-ERROR vacuous batch: only {ok_refs} of {ref_stats.get('ref_calls')} reference calls succeed - the tree under test or the generator is broken")
+        return 2
     vs = variants(tier)
     groups = [{"env": v, "indices": [(k + 1) * n_chunks + c for c in range(n_chunks)]} for k, v in enumerate(vs)]
     plan = {"groups": groups, "n_workers": 16, "chunk": 4, "wall_per_chunk": 900.0, "cfg": {"n_chunks": n_chunks, "phase": "variant", "wall_per_run": 300}}
